@@ -290,16 +290,19 @@ package tcp
 // C04: every data segment handed to sendSegment is at most maxPayloadSize bytes (the peer's MSS
 // as negotiated) and ends at or before the right edge sndUna+sndWnd of the peer's window
 // (serial-number order; windows up to 2^30 as allowed by window scaling).
+// C02 (no silent stall): when sendData returns, either nothing is unacknowledged or the
+// retransmission timer is armed.
 // sendData: the congestion window is only ever lowered here (to the initial window after an
 // idle period, never during recovery); every segment without FIN that is emitted is counted
 // in outstanding, and outstanding is raised only while it is below the window. The two
 // internal assertion panics (FIN not last / FIN with data) are not proved unreachable here.
-//@ func (*sender).sendData props C05 C04
+//@ func (*sender).sendData props C05 C04 C02
 //@   requires sndOK(s) && 0 <= s.outstanding && s.outstanding <= 1 << 40 && s.sndCwnd <= 1 << 40
 //@   panics_when true
 //@   ensures s.sndCwnd == old(s.sndCwnd) || (s.sndCwnd == InitialCwnd && old(s.sndCwnd) > InitialCwnd && !old(s.fr.active))
 //@   ensures s.outstanding >= old(s.outstanding) && (s.outstanding == old(s.outstanding) || s.outstanding <= s.sndCwnd)
 //@   ensures ghost(sentNonFin) - old(ghost(sentNonFin)) == s.outstanding - old(s.outstanding)
+//@   ensures s.sndUna == s.sndNxt || s.resendTimer.state == timerStateEnabled
 //@   at_call sendSegment requires implies(flags & flagFin == 0, data.size <= imax(s.maxPayloadSize, 0))
 //@   at_call sendSegment requires implies(flags & flagFin == 0 && s.sndWnd <= 0x40000000 && data.size >= 0, int32(uint32(seq) + uint32(data.size) - uint32(s.sndUna + seqnum.Value(s.sndWnd))) <= 0)
 //@   loop 1 invariant s.outstanding >= old(s.outstanding) && (s.outstanding == old(s.outstanding) || s.outstanding <= s.sndCwnd) && s.outstanding <= 1 << 41
@@ -314,7 +317,7 @@ package tcp
 // matters; after a minute of back-off the connection is given up (false); otherwise the
 // timeout doubles, recovery is left, the window collapses to ONE segment, and at most one
 // segment without FIN is emitted for this timeout.
-//@ func (*sender).retransmitTimerExpired props C05
+//@ func (*sender).retransmitTimerExpired props C05 C02
 //@   impl congestionControl *renoState
 //@   requires sndOK(s) && renoOf(s) && s.rto >= 200000000 && 2 <= s.sndSsthresh && s.sndSsthresh <= 1 << 40
 //@   panics_when true
@@ -324,6 +327,7 @@ package tcp
 //@            && 0 <= s.outstanding && s.outstanding <= 1 && ghost(sentNonFin) - old(ghost(sentNonFin)) == s.outstanding
 //@            && old(s.resendTimer.state) != timerStateOrphaned)
 //@   ensures s.rto >= 200000000
+//@   ensures implies(result && old(s.rto) < 60000000000 && old(s.resendTimer.state) == timerStateEnabled && s.rto != old(s.rto), s.sndUna == s.sndNxt || s.resendTimer.state == timerStateEnabled)
 //@   modifies modset(NETSEND)
 //@   modifies s.rto, s.fr.active, s.fr.first, s.fr.last, s.fr.maxCwnd, s.dupAckCount, s.sndSsthresh
 //@   modifies s.sndCwnd, s.outstanding, s.sndNxt, s.writeNext, s.writeList.tail, s.lastSendTime, s.rttMeasureTime, s.maxSentAck
@@ -424,7 +428,7 @@ package tcp
 // delivered (counted by ghost(delivered)), and rcvNxt moves to the end of the segment (one
 // further for FIN). An empty segment is consumed exactly when it sits at rcvNxt. A segment that
 // is not consumed changes neither rcvNxt nor what has been delivered.
-//@ func (*receiver).consumeSegment props C01 C04
+//@ func (*receiver).consumeSegment props C01 C04 C02
 //@   requires rcvOK(r) && sndOK(r.ep.snd) && s != nil
 //@   requires segLen == seqnum.Size(s.data.size) && segSeq == s.sequenceNumber
 //@   requires segsNonNil(r.pendingRcvdSegments)
@@ -462,7 +466,7 @@ package tcp
 // handleRcvdSegment: nothing is processed after the receive side closed; a segment outside the
 // acceptable range (RFC 793 p.26, see acceptable) is answered by exactly one ACK and delivers
 // nothing and does not move rcvNxt ("data wholly outside the window is never delivered").
-//@ func (*receiver).handleRcvdSegment props C01 C04
+//@ func (*receiver).handleRcvdSegment props C01 C04 C02
 //@   requires rcvOK(r) && sndOK(r.ep.snd) && s != nil
 //@   requires segsNonNil(r.pendingRcvdSegments)
 //@   ensures implies(old(r.closed), r.rcvNxt == old(r.rcvNxt) && ghost(delivered) == old(ghost(delivered)) && ghost(tcpSegs) == old(ghost(tcpSegs)))
